@@ -124,6 +124,13 @@ CMR_ERROR _CMRreallocBlockArray(CMR* cmr, void** ptr, size_t size, size_t length
 
   assert(cmr);
   assert(ptr);
+  if (size * length == 0)
+  {
+    /* realloc(p, 0) frees p and may return NULL, which is not an allocation failure. */
+    free(*ptr);
+    *ptr = NULL;
+    return CMR_OKAY;
+  }
   *ptr = realloc(*ptr, size * length);
 
   return *ptr ? CMR_OKAY : CMR_ERROR_MEMORY;
